@@ -27,5 +27,8 @@ def run(tier, seed, work):
     for pr in (1, 2):
         groups.append(("Trace_Locking.tla", "Trace_Locking_C06_pr%d.cfg" % pr,
                        lc.jobs("c06lk", seed + 7, 3 if quick else 20, 30, 3 if quick else 8, pr) + lc.jobs("c06lkburst", seed + 8, 3 if quick else 20, 30, 2 if quick else 4, pr, "burst")))
+    # ... and it survives export / import: unlocks scheduled for several instants, claims waiting, the nonce
+    groups.append(("Trace_Locking.tla", "Trace_Locking_C06_pr1.cfg",
+                   [("c06lkreimp_%d" % j, ["reimport", "-n", 3 if quick else 12, "-depth", 30, "-seed", seed * 1000 + 380 + j, "-mode", "locking"]) for j in range(4 if quick else 8)]))
     return verif.run_stateful_check("C06", tier, seed, work, mc_list=mc, groups=groups, key_fn=lambda ev: hc.key(ev) if ev.get('ev') in ('process', 'prepare', 'finalize', 'exec') else 'c06/%s' % ev.get('ev'),
                                     level="model_checking", assumptions=hc.ASSUME, rule=RULE)
